@@ -22,9 +22,12 @@ import (
 //	6 bare io.Reader, one byte per call, the last one together with io.EOF
 //	7 *bytes.Buffer (io.ByteReader, io.WriterTo, io.ReaderFrom, Len, ...)
 //	8 io.Reader + io.ByteReader and nothing else, full reads
-const nSourceKinds = 9
+//	9 *bufio.Reader with a 37-byte buffer (its fills end off every 4-byte grid)
+//	10 *bufio.Reader (default size) over a bare source that hands out one byte per call
+//	11 *bufio.Reader (default size) over a bare source that hands out five bytes per call
+const nSourceKinds = 12
 
-var sourceKindNames = []string{"bytes.Reader", "bufio(16)", "bufio(default)", "bare 1-byte", "bare half reads", "bare, data with EOF", "bare 1-byte, data with EOF", "bytes.Buffer", "Read+ReadByte only"}
+var sourceKindNames = []string{"bytes.Reader", "bufio(16)", "bufio(default)", "bare 1-byte", "bare half reads", "bare, data with EOF", "bare 1-byte, data with EOF", "bytes.Buffer", "Read+ReadByte only", "bufio(37)", "bufio over 1-byte reads", "bufio over 5-byte reads"}
 
 type bareSource struct {
 	data    []byte
@@ -86,6 +89,12 @@ func sourceOf(kind int, data []byte) io.Reader {
 		return bytes.NewBuffer(append([]byte(nil), data...))
 	case 8:
 		return &byteSource{bareSource{data: data}}
+	case 9:
+		return bufio.NewReaderSize(bytes.NewReader(data), 37)
+	case 10:
+		return bufio.NewReader(&bareSource{data: data, step: 1})
+	case 11:
+		return bufio.NewReader(&bareSource{data: data, step: 5})
 	}
 	return bytes.NewReader(data)
 }
